@@ -427,7 +427,16 @@ def diff_programs(ctx, name, cases, sched=None, flags=None, nontrivial=None, shr
     ctx.evaluations += len(cases); ctx.validated += len(cases) - disc
     srcs = set(c['src'] for c in cases)
     ctx.nontrivial += len([s for s in srcs if (nontrivial(s) if nontrivial else s.count('\n') >= 2)])
-    ctx.streams.append({'stream': name, 'cases': len(cases), 'discarded_steplimit': disc, 'implementation_result_kinds': dict(kinds), 'case_kinds': dict(ckinds)})
+    # how many programs end in an error before 60 % of their source has run (a generator that kills its own programs early
+    # exercises little): share per stream, reported so that it can be watched
+    early = 0
+    for c, a in zip(cases, impl):
+        if ' | res err ' in a and not c.get('files'):
+            r = a.split(' | res err ')[1].split(' ')
+            nl = c['src'].count('\n')
+            if len(r) > 1 and r[1].isdigit() and nl > 4 and 0 < int(r[1]) < 0.6 * nl: early += 1
+    ctx.streams.append({'stream': name, 'cases': len(cases), 'discarded_steplimit': disc, 'implementation_result_kinds': dict(kinds), 'case_kinds': dict(ckinds),
+                        'share_ending_in_an_error_before_60_percent_of_the_source': round(early / max(1, len(cases)), 3)})
     if cases:
         c = cases[len(cases) // 2]
         ctx.samples.append({'stream': name, 'kind': c.get('kind'), 'source': c['src'][:1200], 'files': [f[0] for f in c.get('files', ())], 'implementation': vlib.canon_result(c['_impl'])[:400]})
@@ -475,6 +484,10 @@ def stream_expr(ctx):
     for r in raw:
         for j, e in enumerate(r['exprs']):
             cases.append({'src': pstreams.prog(r['decl'] + ['দেখাও ' + e + ';']), 'kind': 'expr-' + r['kind'], 'group': id(r), 'variant': j, 'tree': r['tree']})
+        if r.get('toks'):
+            # the same token sequence with no blank wherever two tokens cannot fuse: ক-১, (ক)-১, ফ(খ)-১, ১+-২
+            stmt = layout(ctx.rng, [['দেখাও'] + r['toks'] + [';']], 'min').strip()
+            cases.append({'src': pstreams.prog(r['decl'] + [stmt]), 'kind': 'expr-' + r['kind'], 'group': id(r), 'variant': 9, 'tree': r['tree']})
     impl, model = diff_programs(ctx, 'expr', cases, flags='-', nontrivial=lambda s: True)
     # metamorphic, implementation only: redundant parentheses never change the result
     groups = collections.defaultdict(list)
